@@ -5,10 +5,12 @@ package props
 
 import (
 	"bytes"
+	sdkmath "cosmossdk.io/math"
 	"cosmossdk.io/x/feegrant"
 	"encoding/hex"
 	"encoding/json"
 	"fmt"
+	stakingtypes "github.com/cosmos/cosmos-sdk/x/staking/types"
 	"sort"
 	"strings"
 	"testing"
@@ -69,6 +71,8 @@ func TestC17_JobsImmutableAndRunsCarryCaller(t *testing.T) {
 		jobs := map[string]*c17Job{}
 		var log []string
 		lastID := map[string]uint64{}
+		pendingCalls := map[string]map[uint64]bool{}
+		snapshotsChanged := 0
 		okRuns, failRuns := 0, 0
 		delegatedRuns := 0
 		modWithPayload, fixedWithPayload, failBetween := false, false, false
@@ -106,6 +110,27 @@ func TestC17_JobsImmutableAndRunsCarryCaller(t *testing.T) {
 				}
 			}
 			lastID[ref] = maxID
+			// contract calls enqueued by earlier requests stay in the queue (nothing in these histories delivers, attests or
+			// prunes them; a new validator-set update may supersede older validator-set updates only)
+			present := map[uint64]bool{}
+			for _, m := range ms {
+				present[m.GetId()] = true
+			}
+			for id := range pendingCalls[ref] {
+				if !present[id] {
+					t.Fatalf("contract call %d, enqueued on %s by an earlier successful request, has disappeared from the queue\nhistory: %v", id, ref, log)
+				}
+			}
+			for _, m := range ms {
+				if cm, err := m.ConsensusMsg(c.App.AppCodec()); err == nil {
+					if _, ok := cm.(*evmtypes.Message).Action.(*evmtypes.Message_SubmitLogicCall); ok {
+						if pendingCalls[ref] == nil {
+							pendingCalls[ref] = map[uint64]bool{}
+						}
+						pendingCalls[ref][m.GetId()] = true
+					}
+				}
+			}
 			return calls, valsets
 		}
 		for _, ch := range chains {
@@ -267,6 +292,29 @@ func TestC17_JobsImmutableAndRunsCarryCaller(t *testing.T) {
 				judgeRun(t, id, u.Addr, supplied, ok, desc)
 				checkJobs()
 			},
+			// the validator set changes (a delegation of more than 1 %) and a new snapshot is built: the next execution on a
+			// chain with a published snapshot brings a just-in-time validator-set update with it
+			"newSnapshot": func(t *rapid.T) {
+				if snapshotsChanged >= 2 {
+					t.Skip("enough")
+				}
+				v := c.Vals[rapid.IntRange(0, len(c.Vals)-1).Draw(t, "val")]
+				res, err := c.Block(c.MustSign(users[1], stakingtypes.NewMsgDelegate(users[1].Addr.String(), v.Val().String(), sdk.NewCoin(chain.BondDenom, sdkmath.NewInt(30_000_000)))))
+				if err != nil || res.TxResults[0].Code != 0 {
+					t.Fatalf("delegate: %v", err)
+				}
+				if _, err := c.App.ValsetKeeper.TriggerSnapshotBuild(c.Ctx()); err != nil {
+					t.Fatalf("snapshot: %v", err)
+				}
+				if _, err := c.Block(); err != nil {
+					t.Fatalf("block: %v", err)
+				}
+				snapshotsChanged++
+				for _, ch := range chains {
+					newLogicCalls(ch.RefID)
+				}
+				log = append(log, fmt.Sprintf("newSnapshot(v%d)", v.Index))
+			},
 			"executeByGrantee": func(t *rapid.T) {
 				id := pickID(t)
 				res, err := c.Block(c.MustSign(g0, &schedtypes.MsgExecuteJob{Metadata: chain.MDAs(users[0].Addr, g0), JobID: id}))
@@ -318,6 +366,9 @@ func TestC17_JobsImmutableAndRunsCarryCaller(t *testing.T) {
 		}
 		if delegatedRuns > 0 {
 			labels = append(labels, "delegatedRun")
+		}
+		if snapshotsChanged > 0 {
+			labels = append(labels, "validatorSetChanged")
 		}
 		if unpublished["bnb-main"] {
 			labels = append(labels, "bnbWithoutPublishedSnapshot")
